@@ -817,6 +817,80 @@ func (c *progCtx) goTypeCase(t *parser.Thrift, dupEvery int) *Case {
 	return c.mk("gotype", t, fmt.Sprintf("GoTypeCase %s %s %s %s", cb(t.Filename), coqfmt.List(tys), coqfmt.List(fwd), coqfmt.List(bwd)), obs)
 }
 
+// wireCase: Marshal / Unmarshal of a descriptor as RegisterAST left it (an Extra map in every node).
+func (c *progCtx) wireCase(t *parser.Thrift, fd *tr.FileDescriptor) *Case {
+	dump := refldump.FromFile(fd)
+	wire := "None"
+	rt := false
+	note := ""
+	var data []byte
+	var err error
+	if guard(func() { data, err = fd.Marshal() }) {
+		err = fmt.Errorf("panic in Marshal")
+	}
+	if err == nil {
+		if raw, gerr := gunzip(data); gerr == nil {
+			wire = "(Some " + c.raws.add(raw) + ")"
+			c.st.WireBytes += len(raw)
+		}
+		var back *tr.FileDescriptor
+		var uerr error
+		if guard(func() { back, uerr = tr.Unmarshal(data) }) {
+			uerr = fmt.Errorf("panic in Unmarshal")
+		}
+		if uerr == nil && back != nil {
+			rt = refldump.FromFile(back).JSON() == dump.JSON()
+		} else if uerr != nil {
+			note = "Unmarshal: " + uerr.Error()
+		}
+	} else {
+		note = "Marshal: " + err.Error()
+	}
+	if !rt {
+		c.st.RoundTripFailures++
+	}
+	cs := c.mk("wire", t, fmt.Sprintf("WireCase %s %s %s", dump.Coq(), wire, coqfmt.Bool(rt)), dump)
+	cs.Note = note
+	return cs
+}
+
+// allMethodsCases: ServiceDescriptor.GetAllMethods in order (the Go loop does not end on a cyclic
+// extends chain; the checker rejects those, and the walk is bounded here before the call).
+func (c *progCtx) allMethodsCases(t *parser.Thrift, fd *tr.FileDescriptor) []*Case {
+	var out []*Case
+	for _, s := range t.Services {
+		sd := fd.GetServiceDescriptor(s.Name)
+		if sd == nil {
+			continue
+		}
+		depth := 0
+		for cur := sd; cur != nil && depth <= 32; depth++ {
+			cur = cur.GetParent()
+		}
+		if depth > 32 {
+			continue
+		}
+		var all []found
+		if guard(func() {
+			for _, m := range sd.GetAllMethods() {
+				all = append(all, found{m.Filepath, m.Name})
+			}
+		}) {
+			c.st.Panics++
+			continue
+		}
+		var items []string
+		for _, m := range all {
+			items = append(items, "("+cb(m.Path)+", "+cb(m.Name)+")")
+		}
+		if depth > 2 {
+			c.st.shape("extends_chains_of_3_or_more", 1)
+		}
+		out = append(out, c.mk("allmethods", t, fmt.Sprintf("AllMethodsCase %s %s %s", cb(t.Filename), cb(s.Name), coqfmt.List(items)), all))
+	}
+	return out
+}
+
 // inProcess produces every in-process case of a parsed, checked and resolved program.
 func (c *progCtx) inProcess() []*Case {
 	var out []*Case
@@ -840,8 +914,10 @@ func (c *progCtx) inProcess() []*Case {
 		if len(t.Services) > 0 {
 			out = append(out, c.methodCase(t, fd))
 			out = append(out, c.parentCases(t, fd)...)
+			out = append(out, c.allMethodsCases(t, fd)...)
 		}
 		out = append(out, c.fieldCases(t, fd)...)
+		out = append(out, c.wireCase(t, fd))
 		dup := 0
 		if i%2 == 1 {
 			dup = 3
